@@ -1,6 +1,7 @@
 (* C08 - ISO requests (PGN 59904) are always answered: data for the mandatory PGNs, a negative acknowledgement otherwise.
    Independent specification (reference layouts written from the published NMEA 2000 / ISO 11783 definitions, not from the model)
-   and the theorem statements.  Proofs: Proofs/IsoProofsA.v, IsoProofsB.v ; closing theorems: Props/Properties_C08.v. *)
+   and the theorem statements.  Proofs: Proofs/IsoProofsA.v .. IsoProofsE.v ; closing theorems: Props/Properties_C08.v.
+   A node whose application cleared all three configuration strings is modelled by the empty 126998 payload (statement 2b). *)
 From Coq Require Import ZArith List Bool.
 From N2kV Require Import Base.ListAux Model.CanId Model.Sched Model.PgnClass Model.NodeDefs Model.NodeRxDefs Gen.GenTables Gen.GenConsts Spec.SendSpec.
 Import ListNotations.
@@ -75,23 +76,29 @@ Definition driver_accepts (n:node) : Prop := n_drv n = [] /\ ring_wf (n_q n).
 Definition protocol_pgns_single (c:pgncfg) : Prop := is_fast_packet_pgn c 59392 = false /\ is_fast_packet_pgn c 60928 = false.
 (* every device has its extended state (pending-information schedulers, heartbeat, receive list) *)
 Definition rnode_wf (r:rnode) : Prop := length (rx_dev r) = length (n_devs (rn r)).
+(* the node has configuration information to report when that is what is asked for.  "No configuration information at all" (the
+   application cleared all three strings) is modelled as the empty payload: see iso_no_config_info_stmt *)
+Definition config_info_present (c:rcfg) (p:Z) : Prop := p = 126998 -> c_confinfo c <> [].
 Definition info_fits (c:rcfg) : Prop := (length (c_prodinfo c) <= 223)%nat /\ (length (c_confinfo c) <= 223)%nat.
 Definition handler_accepts (c:rcfg) (p:Z) : bool := match c_iso_handler c with Some acc => existsb (Z.eqb p) acc | None => false end.
 Definition quiet_after (n:node) : Prop := n_drv n = [] /\ ring_wf (n_q n) /\ q_rd (n_q n) = q_wr (n_q n).
 
-(* the positive answers (the same for addressed and broadcast requests).  [pend] = frames flushed first. *)
-Definition positive_answer (r:rnode) (requester p i:Z) (res:rnode * list event) : Prop :=
+(* the frames of the positive answers (the same for addressed and broadcast requests), device i of node r answering [requester] *)
+Definition answer_frames (r:rnode) (requester p i:Z) (ans:list event) : Prop :=
   let d := get_dev (rn r) i in
-  let '(r', ev) := res in
-  exists ans, ev = pending_flush (rn r) ++ ans /\ quiet_after (rn r') /\
   (p = 60928 -> single_frame ans 6 60928 (d_src d) 255 (ref_claim (d_name d))) /\
   (p = 126464 -> exists a1 a2, ans = a1 ++ a2 /\
                   fast_packet a1 6 126464 (d_src d) requester (ref_pgn_list 0 (ref_tx_list r i)) /\
                   fast_packet a2 6 126464 (d_src d) requester (ref_pgn_list 1 (ref_rx_list r i))) /\
-  (p = 126996 -> fast_packet ans 6 126996 (d_src d) 255 (c_prodinfo (r_cfg r)) /\
-                 sched_is_enabled (w64 r') (x_pend_prod (get_devx r' i)) = false) /\
-  (p = 126998 -> fast_packet ans 6 126998 (d_src d) 255 (c_confinfo (r_cfg r)) /\
-                 sched_is_enabled (w64 r') (x_pend_conf (get_devx r' i)) = false).
+  (p = 126996 -> fast_packet ans 6 126996 (d_src d) 255 (c_prodinfo (r_cfg r))) /\
+  (p = 126998 -> fast_packet ans 6 126998 (d_src d) 255 (c_confinfo (r_cfg r))).
+(* one device's positive answer: the frames still owed are flushed first, then the answer; everything is accepted, so the queue is
+   empty afterwards and no retry of product / configuration information is armed *)
+Definition positive_answer (r:rnode) (requester p i:Z) (res:rnode * list event) : Prop :=
+  let '(r', ev) := res in
+  exists ans, ev = pending_flush (rn r) ++ ans /\ quiet_after (rn r') /\ answer_frames r requester p i ans /\
+  (p = 126996 -> sched_is_enabled (w64 r') (x_pend_prod (get_devx r' i)) = false) /\
+  (p = 126998 -> sched_is_enabled (w64 r') (x_pend_conf (get_devx r' i)) = false).
 
 (* ================= 1. addressed requests are answered ================= *)
 (* every requested PGN value (one quantifier), every requester, every device of every node.  With an empty queue
@@ -101,7 +108,7 @@ Definition iso_addressed_answered_stmt : Prop :=
     on_bus (rn r) i -> driver_accepts (rn r) -> protocol_pgns_single (n_pgn (rn r)) -> info_fits (r_cfg r) -> rnode_wf r ->
     let d := get_dev (rn r) i in
     let res := respond_iso_request r requester true p i in
-    (mandatory_pgn p = true -> positive_answer r requester p i res) /\
+    (mandatory_pgn p = true -> config_info_present (r_cfg r) p -> positive_answer r requester p i res) /\
     (mandatory_pgn p = false -> handler_accepts (r_cfg r) p = true ->
        (* the application's handler took the request: the library itself sends nothing and does not touch the queue *)
        snd res = [EvNote (1000000 + p)] /\ rn (fst res) = fst (claim_started (rn r) i)) /\
@@ -124,11 +131,25 @@ Definition iso_broadcast_never_nak_stmt : Prop :=
     ring_wf (n_q (rn r')) /\
     ((* with the hypotheses of statement 1, the mandatory PGNs draw the same positive answers *)
      mandatory_pgn p = true -> on_bus (rn r) i -> driver_accepts (rn r) -> protocol_pgns_single (n_pgn (rn r)) -> info_fits (r_cfg r) ->
-     rnode_wf r -> positive_answer r requester p i (r', ev)) /\
+     rnode_wf r -> config_info_present (r_cfg r) p -> positive_answer r requester p i (r', ev)) /\
     ((* the application's handler: asked unless the PGN is on the list of broadcast requests to ignore; the library sends nothing *)
      mandatory_pgn p = false -> snd (claim_started (rn r) i) = false ->
      ev = (if handler_accepts (r_cfg r) p && negb (existsb (Z.eqb p) ref_ignore_broadcast) then [EvNote (1000000 + p)] else []) /\
      n_q (rn r') = n_q (rn r) /\ n_drv (rn r') = n_drv (rn r)).
+
+(* ================= 2b. no configuration information at all ================= *)
+(* a request for PGN 126998 to a node that has nothing to report is treated like a request for a PGN the node cannot supply:
+   addressed: exactly one negative acknowledgement to the requester naming 126998; broadcast: nothing is sent, nothing queued
+   (before the repair 66b10af the negative acknowledgement went to the broadcast address in both cases) *)
+Definition iso_no_config_info_stmt : Prop :=
+  forall r requester i, 0 <= requester < 256 -> c_confinfo (r_cfg r) = [] ->
+    (on_bus (rn r) i -> driver_accepts (rn r) -> protocol_pgns_single (n_pgn (rn r)) ->
+     let res := respond_iso_request r requester true 126998 i in
+     exists ans, snd res = pending_flush (rn r) ++ ans /\ quiet_after (rn (fst res)) /\
+                 single_frame ans 6 59392 (d_src (get_dev (rn r) i)) requester (ref_nak 126998)) /\
+    (0 <= i < dev_count (rn r) -> snd (claim_started (rn r) i) = false ->
+     let res := respond_iso_request r requester false 126998 i in
+     snd res = [] /\ n_q (rn (fst res)) = n_q (rn r) /\ n_drv (rn (fst res)) = n_drv (rn r) /\ rx_dev (fst res) = rx_dev r).
 
 (* ================= 3. nothing while the address claim is pending ================= *)
 Definition iso_claim_pending_silent_stmt : Prop :=
@@ -159,6 +180,14 @@ Definition iso_dispatch_stmt : Prop :=
     (s_dst s = 255 -> handle_iso_request r s = broadcast_answers (device_indices (rn r)) r (s_src s) (requested_pgn s)) /\
     (forall i, s_dst s <= 253 -> owner_of (rn r) (s_dst s) i ->
        handle_iso_request r s = respond_iso_request r (s_src s) true (requested_pgn s) i).
+(* a broadcast request for a mandatory PGN draws the positive answer of every device, in device order (all devices on the bus) *)
+Definition iso_broadcast_all_devices_stmt : Prop :=
+  forall r requester p, 0 <= requester < 256 -> mandatory_pgn p = true -> 0 < dev_count (rn r) ->
+    (forall i, 0 <= i < dev_count (rn r) -> on_bus (rn r) i) -> driver_accepts (rn r) -> protocol_pgns_single (n_pgn (rn r)) ->
+    info_fits (r_cfg r) -> rnode_wf r -> config_info_present (r_cfg r) p ->
+    let '(r', ev) := broadcast_answers (device_indices (rn r)) r requester p in
+    exists anss, ev = pending_flush (rn r) ++ concat anss /\ quiet_after (rn r') /\
+      Forall2 (fun i ans => answer_frames r requester p i ans) (device_indices (rn r)) anss.
 (* the mode hypothesis made explicit, for every reaction gf to group functions: PGN 59904 is always classified as a system message;
    an active node passes it to the dispatch above, a node in ListenOnly (0), SendOnly (3) or ListenAndSend (4) mode does nothing *)
 Definition iso_system_dispatch_stmt : Prop :=
